@@ -98,6 +98,20 @@ Proof.
     + apply msel_none in Es; auto. subst sm. destruct s; auto.
 Qed.
 
+Lemma vflush_spec {m} c (s : vstate m) es : vinv c s ->
+  vinv c (vflush c s es) /\ Permutation (ids (vpend (vflush c s es))) (ids (vpend s)).
+Proof.
+  intros Hi. unfold vflush. destruct (nth (norm c es) (v_next s) None) as [t|] eqn:En; [|split; auto].
+  destruct Hi as [Hm Hn].
+  set (s1 := mkV (v_mod s) (set_nth (norm c es) None (v_next s))).
+  assert (Hi1 : vinv c s1) by (split; [auto|cbn; rewrite set_nth_length; auto]).
+  destruct (vsched_spec c s1 (norm c es) 0 [t] [] Hi1) as [H1 H2]. split; auto. rewrite H2.
+  assert (Hlt : norm c es < length (v_next s)) by (rewrite Hn; apply norm_lt).
+  destruct (oids_set _ _ Hlt) as (R & Ha & Hb). rewrite En in Ha.
+  rewrite !vpend_eq. subst s1. cbn [v_mod v_next]. rewrite !ids_app.
+  rewrite (Hb None), Ha. cbn [oids flat_map app]. rewrite ?ids_app. cbn [ids map]. perm_solve.
+Qed.
+
 Lemma msel_norm m c s es : msel m c s (norm c es) = msel m c s es.
 Proof.
   assert (E : norm c (norm c es) = norm c es) by (apply norm_id, norm_lt).
@@ -220,7 +234,7 @@ Qed.
 Lemma vstep_spec {m} c (s s' : vstate m) o b : wf c \/ o <> ODrain -> vinv c s -> vstep c s o = (s', b) ->
   vinv c s' /\ Permutation (ids (vpend s) ++ op_in o) (ob_out b ++ ids (vpend s')).
 Proof.
-  intros Hw Hi H. destruct o as [es d ring rnds|es|oes d ring rnds|es|]; cbn [vstep] in H.
+  intros Hw Hi H. destruct o as [es d ring rnds|es|oes d ring rnds|es|es|]; cbn [vstep] in H.
   - injection H as <- <-. destruct (vsched_spec c s es d ring rnds Hi) as [H1 H2].
     split; auto. cbn [op_in ob_out app]. rewrite H2. apply Permutation_refl.
   - destruct (vsel c s es) as [s1 r] eqn:E. injection H as <- <-.
@@ -235,6 +249,8 @@ Proof.
     cbn [op_in]. rewrite app_nil_r. destruct r as [t|]; cbn [ob_out app].
     + unfold ids. rewrite H2. apply Permutation_refl.
     + destruct H2 as [-> _]. apply Permutation_refl.
+  - injection H as <- <-. destruct (vflush_spec c s es Hi) as [H1 H2].
+    split; auto. cbn [op_in ob_out app]. rewrite app_nil_r, H2. apply Permutation_refl.
   - destruct (vdrain (S (length (vpend s))) c s) as [s1 l] eqn:E. injection H as <- <-.
     destruct Hw as [Hw|Hw]; [|congruence].
     destruct (vdrain_spec c _ _ _ _ Hw Hi (Nat.lt_succ_diag_r _) E) as (H1 & H2 & H3 & _).
@@ -261,7 +277,7 @@ Qed.
 Lemma vstep_cons {m} c (s s' : vstate m) o b : vinv c s -> vstep c s o = (s', b) ->
   vinv c s' /\ Permutation (ids (vpend s) ++ op_in o) (ob_out b ++ ids (vpend s')).
 Proof.
-  intros Hi H. destruct o as [es d ring rnds|es|oes d ring rnds|es|];
+  intros Hi H. destruct o as [es d ring rnds|es|oes d ring rnds|es|es|];
     try (apply (vstep_spec c s s' _ b); [right; discriminate|auto|auto]).
   cbn [vstep] in H.
   destruct (vdrain (S (length (vpend s))) c s) as [s1 l] eqn:E. injection H as <- <-.
